@@ -44,6 +44,16 @@ def round5():
         print("| %s %s | %s | %s |" % (sid, clip(m.get("summary", "")), clip(m.get("needs", "")), ", ".join(det) or "-"))
 
 
+def round6():
+    print("| change | needs | caught by |")
+    print("|---|---|---|")
+    for f in sorted(glob.glob(os.path.join(V, "seeded", "*_r6m*", "meta.json"))):
+        m = json.load(open(f))
+        sid = f.split("/")[-2]
+        det = [k for k, v in m.get("detected_by", {}).items() if v.get("exit") == 1]
+        print("| %s %s | %s | %s |" % (sid, clip(m.get("summary", "")), clip(m.get("needs", "")), ", ".join(det) or "-"))
+
+
 def benign():
     print("| change | what it does | checks run | alarms |")
     print("|---|---|---|---|")
@@ -60,4 +70,4 @@ def benign():
 
 
 if __name__ == "__main__":
-    {"round3": round3, "round4": round4, "round5": round5, "benign": benign}[sys.argv[1]]()
+    {"round3": round3, "round4": round4, "round5": round5, "round6": round6, "benign": benign}[sys.argv[1]]()
